@@ -5,7 +5,8 @@ namespace GL
 
 /-- token types whose text is a Go fragment copied into the generated code and mapped back -/
 def isFrag : TT → Bool
-  | .script | .silentScript | .objectRef | .attrDynamicValue | .dynamicText | .attributesCommand | .renderCommand => true
+  | .script | .silentScript | .objectRef | .attrDynamicValue | .dynamicText | .attributesCommand | .renderCommand
+  | .goCode | .package | .import | .gohtStart => true
   | _ => false
 
 /-- no fragment token among those emitted so far by this invocation -/
@@ -121,18 +122,8 @@ macro "nf_step" : tactic => `(tactic| first
 
 macro "nf_auto" : tactic => `(tactic| ((try simp only []); (repeat' split) <;> (try simp only [nf_indent_iff]) <;> (repeat nf_step)))
 
-theorem n_lexGoLineStart (l : L) (h : NF l) : NF (lexGoLineStart l).1 := by
-  unfold lexGoLineStart; nf_auto
 theorem n_lexGoLineEnd (l : L) (h : NF l) : NF (lexGoLineEnd l).1 := by
   unfold lexGoLineEnd; nf_auto
-theorem n_lexPackage (l : L) (h : NF l) : NF (lexPackage l).1 := by
-  unfold lexPackage; nf_auto
-theorem n_lexImportStart (l : L) (h : NF l) : NF (lexImportStart l).1 := by
-  unfold lexImportStart; nf_auto
-theorem n_lexImports (l : L) (h : NF l) : NF (lexImports l).1 := by
-  unfold lexImports; nf_auto
-theorem n_lexGoCode (l : L) (h : NF l) : NF (lexGoCode l).1 := by
-  unfold lexGoCode; nf_auto
 theorem n_lexTemplate (l : L) (h : NF l) : NF (lexTemplate l).1 := by
   unfold lexTemplate; nf_auto
 theorem n_lexGohtLineStart (l : L) (h : NF l) : NF (lexGohtLineStart l).1 := by
@@ -220,15 +211,6 @@ theorem n_ignoreIndentedLines (n : Nat) (l : L) (h : NF l) : NF (ignoreIndentedL
     · split
       · exact nf_emit _ _ rfl h1
       · exact h1
-
-theorem n_lexGohtStart (l : L) (h : NF l) : NF (lexGohtStart l).1 := by
-  unfold lexGohtStart
-  have hs : NF (sumL (gohtStartSig l)) := nf_eq (gohtStartSig_out l) h
-  split
-  · rename_i l1 heq; rw [heq] at hs; exact nf_errorf _ _ hs
-  · rename_i l1 heq; rw [heq] at hs
-    simp only []
-    exact nf_skipRun _ _ (nf_skipRun _ _ (nf_emit _ _ rfl (nf_next _ hs)))
 
 theorem n_lexFilterLineStart (n : Nat) (t : TT) (l : L) (h : NF l) : NF (lexFilterLineStart n t l).1 := by
   unfold lexFilterLineStart; nf_auto
